@@ -144,6 +144,25 @@ mismatch!(r1p_into_thin_mismatch_n1, 1);
 #[kani::unwind(6)]
 #[kani::stub(std::alloc::alloc, alloc_stub)]
 #[kani::stub(alloc::alloc::dealloc_nonnull, dealloc_stub)]
+fn qp_into_thin_mismatch_zst_elements() {
+    // zero-sized elements: only the Vec constructor builds such a fat Arc
+    crate::ghost::arm();
+    let recorded: usize = kani::any();
+    let mut v = Vec::new();
+    v.push(Zst);
+    v.push(Zst);
+    let a = Arc::from_header_and_vec(HeaderWithLength::new(7u8, recorded), v);
+    assert!(a.slice.len() == 2 && a.header.length == recorded);
+    let t = Arc::into_thin(a);
+    assert!(recorded == 2, "into_thin accepted a recorded length that differs from the slice length (zero-sized elements)");
+    assert!(t.slice.len() == 2);
+    kani::cover!(true, "matching length is accepted");
+    forget(t);
+}
+#[kani::proof]
+#[kani::unwind(6)]
+#[kani::stub(std::alloc::alloc, alloc_stub)]
+#[kani::stub(alloc::alloc::dealloc_nonnull, dealloc_stub)]
 fn qp_into_thin_mismatch_never_returns() {
     crate::ghost::arm();
     let recorded: usize = kani::any();
